@@ -329,7 +329,8 @@ func (g *c11gen) stmts(n int, inFunc bool, setPtrs []int) ([]c11stmt, []int) {
 				set = append(set, p)
 			}
 		case k == 6 && len(set) > 0:
-			out = append(out, c11stmt{K: 's', P: set[g.r.intn(len(set))], E: g.expr(inFunc, g.vars, set)})
+			// the right-hand side makes no call: Go leaves open whether p is read before or after a call that re-points it
+			out = append(out, c11stmt{K: 's', P: set[g.r.intn(len(set))], E: g.pure(2, inFunc, g.vars, set)})
 		case k == 7 && !inFunc:
 			out = append(out, c11stmt{K: 'e', E: g.expr(false, g.vars, set)})
 		case len(g.vars) > 0:
@@ -903,7 +904,7 @@ func runC11(args []string) error {
 	distinct := distinctSet{}
 	nMain, nRerun, nXdep, nHist, nStale, nRich := 110, 14, 14, 30, 12, 1
 	if *tier == "thorough" {
-		nMain, nRerun, nXdep, nHist, nStale, nRich = 4000, 300, 300, 800, 300, 12
+		nMain, nRerun, nXdep, nHist, nStale, nRich = 1500, 150, 150, 400, 150, 8
 	}
 
 	var plans []*c11plan
